@@ -890,20 +890,74 @@ def allcloseList (a b : List (PyVal α)) (rtol : α) (atol : Option (PyVal α)) 
       | _, _ => true
     go a b
 
-/-- `allclose(a, b, …)` on two `quantities` ARRAYS of equal length ≥ 1, or a scalar `a` against an array `b` (`aScalar`; the list
-    then holds that one scalar) (units.py 529, 539-553): `d = abs(a - b)` is an array; a dimension mismatch of `a - b` sends the
-    call to the list branch, where every pair is False; `lim += atol` of another dimension raises ValueError (not swallowed here);
-    otherwise `np.all` of the element-wise tests `d_i <= lim_i` (`lim` scalar when `a` is). -/
-def allcloseArrays (aScalar : Bool) (a b : List (PyVal α)) (rtol : α) (atol : Option (PyVal α)) : Except Err Bool :=
-  let as : List (PyVal α) := if aScalar then (match a with | x :: _ => b.map fun _ => x | [] => []) else a
-  if as.length ≠ b.length then .ok false
-  else
-    let rec go : List (PyVal α) → List (PyVal α) → Bool → Except Err Bool
-      | x :: xs, y :: ys, acc => match allcloseScalar x y rtol atol with
-        | .error e => .error e
-        | .ok r => go xs ys (acc && r)
-      | _, _, acc => .ok acc
-    go as b true
+/-- an argument of `allclose` on `quantities` values: a scalar quantity / number, or a 1-d array (2-d is reduced to 1-d by the harness) -/
+inductive ArrArg (α : Type)
+  | scalar (x : PyVal α)
+  | arr (l : List (PyVal α))
+
+/-- `len(x)`; `none` for a scalar (TypeError) -/
+def ArrArg.len? : ArrArg α → Option Nat
+  | .scalar _ => none
+  | .arr l => some l.length
+
+/-- NumPy broadcasting of a list to length `n`: a single element is repeated -/
+def expandList {β : Type} (n : Nat) : List β → List β
+  | [x] => List.replicate n x
+  | l => l
+
+def ArrArg.expand (n : Nat) : ArrArg α → List (PyVal α)
+  | .scalar x => List.replicate n x
+  | .arr l => expandList n l
+
+/-- broadcast length of `a - b`: `none` = not broadcastable, `some none` = both scalars, `some (some n)` = a length-`n` array -/
+def broadcastLen : Option Nat → Option Nat → Option (Option Nat)
+  | none, none => some none
+  | none, some k => some (some k)
+  | some k, none => some (some k)
+  | some j, some k => if j = k then some (some k) else if j = 1 then some (some k) else if k = 1 then some (some j) else none
+
+/-- the (a_i, b_i, atol_i) triples over the BROADCAST shape, as `allclose` compares them after the fix 32ccfa8 (units.py 529-553).
+    `a - b` that cannot be broadcast, or whose operands differ in dimension → `none` (the call ends in the list branch: False).  `lim = abs(a)*rtol` has the shape of `a` and
+    `lim += atol` is IN PLACE: an array `atol` must have the length of `a` (or 1); with a scalar `a`, or a longer `atol`, NumPy raises
+    ValueError.  `lim` is then broadcast against `d` (`lim + 0*d`, the fix) or used as a scalar. -/
+def allcloseTriples (a b : ArrArg α) (atol : Option (ArrArg α)) :
+    Option (Except Err (List (PyVal α × PyVal α × Option (PyVal α)))) :=
+  match broadcastLen a.len? b.len? with
+  | none => none
+  | some shape =>
+    let n := shape.getD 1
+    -- `a - b` also raises (ValueError) when a pair has different dimensions: list branch again, every pair False
+    if ((a.expand n).zip (b.expand n)).any (fun p => decide (p.1.asQuantity.unit.dims ≠ p.2.asQuantity.unit.dims)) then none else
+    -- `lim = abs(a)*rtol + atol` (not in place, fix e80401e) and, when the lengths differ, `lim, d = lim + 0*d, d + 0*lim`
+    -- (fix dadaf52): a, b and an array atol are broadcast to ONE common shape; an atol that cannot be broadcast against the
+    -- shape of `a - b` is a ValueError.  Two scalars with an array atol: `np.all(d <= lim)` over the elements of atol.
+    let shapeAll : Option (Option Nat) := match atol with
+      | some (.arr ts) => broadcastLen shape (some ts.length)
+      | _ => some shape
+    match shapeAll with
+    | none => some (.error .valueError)
+    | some sh =>
+      let m := sh.getD 1
+      let ats : List (Option (PyVal α)) := match atol with
+        | none => List.replicate m none
+        | some (.scalar t) => List.replicate m (some t)
+        | some (.arr ts) => (expandList m ts).map some
+      some (.ok ((expandList m (a.expand n)).zip ((expandList m (b.expand n)).zip ats)))
+
+/-- `np.all` of the pairwise tests; the first exception (a `lim += atol` of another dimension) propagates -/
+def allcloseAll (rtol : α) : List (PyVal α × PyVal α × Option (PyVal α)) → Bool → Except Err Bool
+  | [], acc => .ok acc
+  | (x, y, t) :: r, acc => match allcloseScalar x y rtol t with
+    | .error e => .error e
+    | .ok ok => allcloseAll rtol r (acc && ok)
+
+/-- `allclose(a, b, rtol, atol)` on `quantities` scalars / 1-d arrays with NumPy broadcasting (units.py 529-553, after fix 32ccfa8).
+    A dimension mismatch of `a - b` makes every pair False (the list branch); shapes that cannot be broadcast give False. -/
+def allcloseArrays (a b : ArrArg α) (rtol : α) (atol : Option (ArrArg α)) : Except Err Bool :=
+  match allcloseTriples a b atol with
+  | none => .ok false
+  | some (.error e) => .error e
+  | some (.ok ts) => allcloseAll rtol ts true
 
 /-- an argument of `allclose` that may be an `UncertainQuantity` (value ± uncertainty) -/
 inductive MaybeUncertain (α : Type)
